@@ -1,8 +1,16 @@
 package rules
 
+import "verif/sa/internal/core"
+
 // ThoroughExtras runs the additional self-validation of the thorough tier and
 // returns data for the evidence file.
 func ThoroughExtras(c *Ctx, prop, verifDir string) map[string]any {
 	out := map[string]any{}
 	return out
+}
+
+// Forget drops the per-program caches (used when many variants are analysed in one process).
+func Forget(p *core.Program) {
+	delete(effCache, p)
+	delete(pmCaches, p)
 }
